@@ -153,6 +153,7 @@ type LoopSpec struct {
 	Invariant []string // contract expressions
 	IterEmits []string // event patterns emitted by one iteration (nil = not constrained)
 	IterEnsures []string // properties of the events of one iteration (evaluated over that iteration's events only)
+	Exit      []string // what holds when the loop condition fails (proved from the invariant and the negated condition): pins the number of iterations
 	Name      string
 }
 
@@ -786,15 +787,63 @@ func (x *Exec) leaveLoops(st *State, from, to *ssa.BasicBlock) {
 		}
 		nl := naturalLoop(fn.Blocks[h])
 		if nl[from.Index] && !nl[to.Index] {
-			if ls := x.H.Loop(fn, x.loopOrdinals(fn)[h]); from.Index != h && ls != nil && ls.NoExit {
+			ls := x.H.Loop(fn, x.loopOrdinals(fn)[h])
+			atCond := from.Index == h || condBlock(fn.Blocks[h], from, 0)
+			if !atCond && ls != nil && ls.NoExit {
 				ord := x.loopOrdinals(fn)[h]
 				x.obl(st, fmt.Sprintf("loop#%d/no-early-exit", ord), "false", "the loop is left by a break before all iterations ran", from.Instrs[len(from.Instrs)-1].Pos())
+			}
+			if atCond && ls != nil && len(ls.Exit) > 0 && x.H.EvalExpr != nil && !x.DryRun {
+				for i, e := range ls.Exit {
+					g, err := x.H.EvalExpr(x, st, e)
+					if err != nil {
+						x.unsupp(st, "loop exit clause: %v", err)
+						break
+					}
+					x.obl(st, fmt.Sprintf("%s/exit#%d", ls.Name, i), g, "when the loop ends: "+e, from.Instrs[len(from.Instrs)-1].Pos())
+				}
 			}
 			continue
 		}
 		keep = append(keep, h)
 	}
 	st.InLoop = keep
+}
+
+// condBlock: b belongs to the loop condition of header h (`for a && b`): it computes without side effects and is
+// reached from the header through such blocks only. Leaving the loop from it is the loop ending, not a break.
+func condBlock(h, b *ssa.BasicBlock, depth int) bool {
+	if b == h {
+		return true
+	}
+	if depth > 8 {
+		return false
+	}
+	for _, ins := range b.Instrs {
+		switch t := ins.(type) {
+		case *ssa.BinOp, *ssa.If, *ssa.DebugRef, *ssa.Phi, *ssa.IndexAddr, *ssa.FieldAddr, *ssa.Field, *ssa.Index, *ssa.Convert, *ssa.ChangeType:
+		case *ssa.UnOp:
+			if t.Op == token.ARROW {
+				return false
+			}
+		case *ssa.Call:
+			bi, ok := t.Call.Value.(*ssa.Builtin)
+			if !ok || (bi.Name() != "len" && bi.Name() != "cap") {
+				return false
+			}
+		default:
+			return false
+		}
+	}
+	if len(b.Preds) == 0 {
+		return false
+	}
+	for _, p := range b.Preds {
+		if !condBlock(h, p, depth+1) {
+			return false
+		}
+	}
+	return true
 }
 
 // exposeLoopVars publishes the loop's phi values under their source names, and for range-over-slice
